@@ -186,6 +186,23 @@ def run(tier):
                 words = [("(word %d (%s))" % (bits // 8, " ".join(str(b) for b in seq)), "W")]
                 lcases.append((cid, src)); meta[cid] = (queries, words)
                 items.append(("layout", cid + ".q0", queries[0][1])); items.append(("layout", cid + ".w0", words[0][0]))
+    # sizes taken as CONSTANTS before, between and after the structures they measure, the structures nested through
+    # arrays of literal and of named length, in every order of the declarations: the size of a structure is what
+    # its members add up to, wherever it is asked for (a structure laid out while a member's structure is still
+    # unknown would be cached with the wrong size)
+    pdecls = ["const OUTER_SIZE: usize = |:Outer|;\n", "struct Outer\n{\n\ttag: u8,\n\trows: [4]Inner,\n}\n", "struct Inner\n{\n\tdata: [K]u32,\n\tw: u16,\n}\n",
+              "const K: usize = J + 1;\n", "const J: usize = 2;\n", "struct Wrap\n{\n\tb: bool,\n\tgrid: [2][J]Outer,\n}\n"]
+    pmain = "fn main() -> u8\n{\n\tprint!(OUTER_SIZE, \"\\n\", |:Outer|, \"\\n\", |:Inner|, \"\\n\", |:Wrap|, \"\\n\", |:[3]Outer|, \"\\n\");\n\treturn: 0\n}\n"
+    inner = "(struct (arr 3 (int 4)) (int 2))"; outer = "(struct (int 1) (arr 4 %s))" % inner; wrap = "(struct bool (arr 2 (arr 2 %s)))" % outer
+    pq = [("OUTER_SIZE", "(sizeof %s)" % outer), ("|:Outer|", "(sizeof %s)" % outer), ("|:Inner|", "(sizeof %s)" % inner), ("|:Wrap|", "(sizeof %s)" % wrap), ("|:[3]Outer|", "(sizeof (arr 3 %s))" % outer)]
+    perms = list(itertools.permutations(range(len(pdecls))))
+    prng = random.Random(ck.seed + 1010)
+    for k2, perm in enumerate(perms if tier != "quick" else prng.sample(perms, 60) + [tuple(range(6)), tuple(reversed(range(6)))]):
+        for mainfirst in (False, True):
+            cid = "p%d%s" % (k2, "m" if mainfirst else "")
+            body = "".join(pdecls[j] for j in perm)
+            lcases.append((cid, (pmain + body) if mainfirst else (body + pmain))); meta[cid] = (pq, [])
+            for j, (q, sx) in enumerate(pq): items.append(("layout", "%s.q%d" % (cid, j), sx))
     impl = C.run_harness("exec", lcases, ck.work + "/layout", timeout=1800)
     model = C.run_model(items, ck.work + "/layout")
     stats = collections.Counter(); mism = 0; distinct = set()
@@ -216,6 +233,24 @@ def run(tier):
             if not mm or mm["sizeof"] != real:
                 mism += 1
                 ck.violation("wrong-sizeof", "%s evaluates to %s at run time, the layout model (LLVM allocation size) says %s" % (q, real, mm.get("sizeof")), "source:\n%s\nquery %s = %s\nmodel: %s" % (src, q, real, m))
+    # the 32-bit target: sizes of types that contain addresses are those of ITS data layout (p:32:32, usize = i32);
+    # wasm cannot be run here, so the folded constants are read off the emitted IR (`ret i32 N`)
+    wq = [("&u8", 4), ("[3]&u8", 12), ("Node", 8), ("Mixed", 16), ("[2]Node", 16), ("usize", 4), ("[5]usize", 20), ("&&i64", 4), ("Deep", 24), ("u64", 8), ("[3]u16", 6)]
+    wsrc = "struct Node\n{\n\ttag: u8,\n\tnext: &Node,\n}\nstruct Mixed\n{\n\tbig: u64,\n\tp: &u8,\n}\nstruct Deep\n{\n\ta: &u8,\n\tn: Node,\n\tm: [2]&Node,\n\tz: u16,\n}\n"
+    wsrc += "".join("fn size_%d() -> usize\n{\n\treturn: |:%s|\n}\nconst SIZE_%d: usize = |:%s|;\nfn csize_%d() -> usize\n{\n\treturn: SIZE_%d\n}\n" % (j, t, j, t, j, j) for j, (t, _) in enumerate(wq))
+    wsrc += "pub extern fn start()\n{\n}\n"
+    wimpl = C.run_harness("ir-wasm", [("w", wsrc)], ck.work + "/wasm-sizes", timeout=600).get("w", ["missing"])
+    if not wimpl[0].startswith("ok"):
+        ck.violation(C.failure_key(wimpl[0]) if not wimpl[0].startswith("err codes=") else "valid-rejected:wasm-sizes", "the size-of module is not compiled for wasm32: " + wimpl[0][:200], wsrc)
+    else:
+        wir = C.unesc(wimpl[1]).decode(errors="replace")
+        for j, (t, want) in enumerate(wq):
+            for fn_ in ("size_%d" % j, "csize_%d" % j):
+                mret = re.search(r"define[^\n]*@%s\(\)[^\n]*\{\n(?:[^}]*\n)?\s*ret i32 (-?\d+)" % fn_, wir)
+                got = mret.group(1) if mret else "?"
+                if got != str(want):
+                    mism += 1
+                    ck.violation("wrong-sizeof:wasm", "wasm32: |:%s| %s is %s, the target's data layout (32-bit addresses) gives %d" % (t, "as a constant" if fn_.startswith("c") else "in a function", got, want), "source:\n%s\nIR:\n%s" % (wsrc, wir[:6000]))
     ck.log("layout: %d programs %s, %d problems, %d distinct types" % (len(lcases), dict(stats), mism, len(distinct)))
     # constants vs variables vs interpreter
     nc = 150 if tier == "quick" else 8000
